@@ -1,0 +1,31 @@
+//go:build verif
+
+package common
+
+// Contracts for the verification machinery in /verif (build tag "verif").
+
+// SpecRedirectClass classifies the text of an error reply the way Redis Cluster clients must:
+// -ASK and -MOVED are redirections, ECONNTIMEOUT is the client's own timeout marker, everything
+// else is an ordinary error reply.
+func SpecRedirectClass(msg string) int {
+	if len(msg) >= 3 && msg[:3] == "ASK" {
+		return KrespAsk
+	}
+	if len(msg) >= 5 && msg[:5] == "MOVED" {
+		return KrespMove
+	}
+	if len(msg) >= 12 && msg[:12] == "ECONNTIMEOUT" {
+		return KrespConnTimeout
+	}
+	return KrespError
+}
+
+//@ func RedisError.Error
+//@   inline
+
+//@ func CheckReply
+//@   arith int
+//@   properties C19
+//@   modifies nothing
+//@   ensures not_an_error_reply: !hastype(reply, "RedisError") ==> result == KrespOK
+//@   ensures redirections_are_recognised: hastype(reply, "RedisError") ==> result == SpecRedirectClass(string(astype(reply, "RedisError")))
